@@ -7,6 +7,7 @@ import (
 	"context"
 	"fmt"
 	"io"
+	"os"
 	"sort"
 	"strings"
 	"sync"
@@ -206,6 +207,12 @@ func Run(sc Scenario, hb HostileBlob, watchdog time.Duration) (out Outcome) {
 		l.AddHook(parkHook{cycles: &listCycles, n: int32(sc.ParkOnVanish)})
 		logger = l
 	}
+	if os.Getenv("VERIF_RECV_DEBUG") != "" {
+		l := logrus.New()
+		l.SetOutput(os.Stderr)
+		l.SetLevel(logrus.DebugLevel)
+		logger = l
+	}
 	r := receiver.New(b, conf, sc.DB, logger, sc.Own, ev, hooks.New())
 
 	labelsD := map[string]string{"lmdb": sc.DB, "limit_name": "download"}
@@ -341,7 +348,7 @@ func Run(sc Scenario, hb HostileBlob, watchdog time.Duration) (out Outcome) {
 			continue
 		}
 		for i := len(present) - 1; i >= 0; i-- {
-			if _, err := wire.DecodeBlob(content[present[i]]); err == nil {
+			if ws, err := wire.DecodeBlob(content[present[i]]); err == nil && lmdbStorable(ws) {
 				required[inst] = present[i]
 				break
 			}
@@ -570,4 +577,17 @@ func (h parkHook) Fire(e *logrus.Entry) error {
 		}
 	}
 	return nil
+}
+
+// lmdbStorable: a snapshot that is valid protobuf can still not be merged when an entry has a key LMDB cannot store
+// (empty or longer than 511 bytes); the receiver treats such a blob as corrupt (b2cd177), and so does the oracle.
+func lmdbStorable(ws *wire.Snap) bool {
+	for _, d := range ws.DBIs {
+		for _, e := range d.Entries {
+			if len(e.Key) == 0 || len(e.Key) > 511 {
+				return false
+			}
+		}
+	}
+	return true
 }
